@@ -115,7 +115,10 @@ def exec_ess(case):
 @st.composite
 def trim_cases(draw):
     return {"w": draw(wspec(max_n=3000)), "ess": draw(st.one_of(st.floats(1e-3, 1 - 1e-6), st.sampled_from([0.5, 0.9, 0.99, 0.999]))),
-            "bins": draw(st.sampled_from([1, 2, 3, 10, 100, 1000])), "d": draw(st.integers(0, 3))}
+            "bins": draw(st.sampled_from([1, 2, 3, 10, 100, 1000])), "d": draw(st.integers(0, 3)),
+            # representation of the weight vector handed in: float64 array, float32 array, list (integer arrays are rejected by the
+            # routine's in-place normalisation with a TypeError on the unchanged tree: not an accepted input)
+            "wrepr": draw(st.sampled_from(["f8", "f8", "f4", "list"]))}
 
 
 def exec_trim(case):
@@ -126,8 +129,24 @@ def exec_trim(case):
         w0 = w0 / 1e150
     N = len(w0)
     d = case["d"]
+    wrepr = case.get("wrepr", "f8")
+    if wrepr == "f4":
+        w_in = w0.astype(np.float32)
+        w0 = w_in.astype(np.float64)  # the oracle judges the values that were actually handed in
+        if not (np.all(np.isfinite(w0)) and w0.sum() > 0 and np.isfinite(np.float32(w0.sum()))):
+            # out of single-precision range: hand the float64 vector in after all
+            w0, wrepr = build_weights(case["w"]), "f8"
+            if np.max(w0) > 1e200:
+                w0 = w0 / 1e150
+            w_in = w0.copy()
+    elif wrepr == "list":
+        w_in = w0.tolist()
+    else:
+        w_in = w0.copy()
     samples = np.arange(N) if d == 0 else np.repeat(np.arange(N, dtype=float)[:, None], d, axis=1)
-    out = lib_call(trim_weights, samples.copy(), w0.copy(), ess=float(case["ess"]), bins=int(case["bins"]), what="trim_weights")
+    tol = 1e-9 if wrepr != "f4" else 1e-4  # single precision in, single precision arithmetic inside
+    out = lib_call(trim_weights, samples.copy(), w_in, ess=float(case["ess"]), bins=int(case["bins"]), what=f"trim_weights(weights as {wrepr})")
+
     if not (isinstance(out, tuple) and len(out) == 2):
         raise Violation("trim_weights did not return (samples, weights)", sig={"kind": "arity"})
     s, wt = np.asarray(out[0]), np.asarray(out[1], dtype=float)
@@ -138,7 +157,7 @@ def exec_trim(case):
         raise Violation("sample rows were mixed", sig={"kind": "alignment"})
     if len(set(idx.tolist())) != len(idx) or idx.min() < 0 or idx.max() >= N:
         raise Violation("returned samples are not a subset of the input", sig={"kind": "subset"})
-    if abs(float(np.sum(wt.astype(np.longdouble))) - 1.0) > 1e-9:
+    if abs(float(np.sum(wt.astype(np.longdouble))) - 1.0) > tol:
         raise Violation(f"trimmed weights sum to {wt.sum()!r}", sig={"kind": "normalisation"})
     if np.any(wt < 0) or not np.all(np.isfinite(wt)):
         raise Violation("negative or non-finite trimmed weight", sig={"kind": "sign"})
@@ -149,11 +168,11 @@ def exec_trim(case):
         raise Violation(f"kept set is not exactly the samples at or above a weight threshold: min kept {wn[kept].min()!r} "
                         f"<= max dropped {wn[~kept].max()!r}", sig={"kind": "upper-set"}, detail={"w": w0.tolist()[:60]})
     exp = wn[idx] / wn[idx].sum()
-    if np.max(np.abs(wt - exp)) > 1e-9 * max(exp.max(), 1e-300) + 1e-300:
+    if np.max(np.abs(wt - exp)) > tol * max(exp.max(), 1e-300) + 1e-300:
         raise Violation("trimmed weights are not the renormalised original weights of the kept samples (alignment lost)",
                         sig={"kind": "alignment"}, detail={"w": w0.tolist()[:60]})
     e_all, e_kept = ref_ess(wn), ref_ess(wn[idx])
-    if e_kept / e_all < float(case["ess"]) - 1e-12:
+    if e_kept / e_all < float(case["ess"]) - (1e-12 if wrepr != "f4" else tol):
         raise Violation(f"ESS kept/ESS all = {e_kept / e_all!r} < requested {case['ess']!r}", sig={"kind": "ess-fraction"},
                         detail={"w": w0.tolist()[:60]})
     removed = N - int(kept.sum())
